@@ -592,7 +592,40 @@ class Interp:
                 yield from self.exec_block(node.body if b else node.orelse, s2)
 
     def st_With(self, node, st):
-        raise Unsupported('with statement at %s' % self.cur.loc(node))
+        """`with` blocks: the context expression is evaluated, `as` names are bound to opaque
+        values, the body is executed.  `mpmath.workdps(K)` / `workprec(K)` are modelled as a
+        precision store on entry and a restore to the (unknown) ambient precision on exit - the
+        notes the precision rule reads."""
+        states = [st]
+        exits = []
+        for item in node.items:
+            nxt = []
+            for s in states:
+                for v, s1 in self.ev(item.context_expr, s):
+                    if s1.raised:
+                        yield from self._raise_or(s1, None)
+                        continue
+                    if isinstance(v, Opaque) and v.label in ('call:mpmath.workdps',
+                                                              'call:mpmath.workprec',
+                                                              'call:mpmath.mp.workdps',
+                                                              'call:mpmath.mp.workprec') and v.args:
+                        which = 'mpmath.mp.dps' if v.label.endswith('dps') else 'mpmath.mp.prec'
+                        s1 = s1.note(('ext-store', which, v.args[0], item.context_expr.lineno,
+                                      self.cur.qualname))
+                        exits.append(which)
+                    if item.optional_vars is not None:
+                        nxt.extend(self.assign(item.optional_vars, Opaque(
+                            'ctx:' + ast.unparse(item.context_expr)[:40], (), 'obj'), s1))
+                    else:
+                        nxt.append(s1)
+            states = nxt
+        for s in states:
+            for out in self.exec_block(node.body, s):
+                s2 = out.state
+                for which in exits:
+                    s2 = s2.note(('ext-store', which, Opaque('ambient-precision'),
+                                  getattr(node, 'end_lineno', node.lineno), self.cur.qualname))
+                yield Outcome(out.kind, out.value, s2)
 
     def st_FunctionDef(self, node, st):
         yield Outcome('fall', None, st.bind(node.name, Opaque('localfunc:' + node.name)))
@@ -1533,6 +1566,10 @@ class Interp:
             return [(mk_func('ABS', args[0]), st)]
         if name == 'round' and len(args) == 1 and num():
             return [(mk_func('ROUND', args[0]), st)]
+        if name == 'round' and len(args) == 2 and num(0) and num(1) and args[1].is_const() \
+                and args[1].const_value().denominator == 1 and 0 <= args[1].const_value() <= 12:
+            scale = 10 ** int(args[1].const_value())
+            return [(mk_func('ROUND', args[0] * scale) / scale, st)]
         if name in ('max', 'min') and len(args) >= 2 and all(isinstance(a, Sym) for a in args):
             return [(mk_func(name.upper(), *args), st)]
         if name in ('max', 'min'):
@@ -1848,6 +1885,17 @@ def fold_cond(c):
         if c.op in ('==', '!='):
             if isinstance(a, Str) and isinstance(b, Str) and a.is_lit() and b.is_lit():
                 return (a.text() == b.text()) == (c.op == '==')
+            if isinstance(a, Tup) and isinstance(b, Tup) and a.kind == b.kind:
+                if len(a.items) != len(b.items):
+                    return c.op == '!='
+                subs = [fold_cond(Cmp('==', x, y)) if not (isinstance(x, Sym) and isinstance(y, Sym))
+                        else ((x - y).const_value() == 0 if (x - y).is_const() else None)
+                        for x, y in zip(a.items, b.items)]
+                if any(v is False for v in subs):
+                    return c.op == '!='
+                if all(v is True for v in subs):
+                    return c.op == '=='
+                return None
             ta, tb = type_of(a), type_of(b)
             known = ('num', 'str', 'none', 'tuple', 'list')
             if ta in known and tb in known and ta != tb:
